@@ -695,12 +695,13 @@ class Taylor3D(object):
             raise TypeError('Unable to add--not compatible')
         # make c = copy of a
         if not inplace:
-            c = [(an, almax, alpha * apow) for (an, almax, apow) in acoeff]
+            # complex, so that in-place accumulation below works whichever operand is complex
+            c = [(an, almax, alpha * apow.astype(complex)) for (an, almax, apow) in acoeff]
         else:
             c = acoeff
         for bn, blmax, bpow in bcoeff:
             # now add it into the list
-            cpow = beta * bpow
+            cpow = beta * bpow.astype(complex)
             matched = False
             for coeffindex, cmatch in enumerate(c):
                 if cmatch[0] == bn:
